@@ -7,7 +7,7 @@ import struct
 from crv.core import use_repo
 
 PROPERTY = "C14"
-MODULES = ["SolutionCodec", "MC_SolutionCodec", "Trace_SolutionCodec"]
+MODULES = ["SolutionCodec", "SolutionFile", "MC_SolutionCodec", "MC_SolutionFile", "Trace_SolutionCodec"]
 TRACE = ("Trace_SolutionCodec", "Trace_SolutionCodec.cfg")
 EXHAUSTIVE = True
 RULE = ("TLC enumerates solution descriptors per dimension with the other dimensions at a default: (trajectory kind, "
@@ -17,7 +17,9 @@ RULE = ("TLC enumerates solution descriptors per dimension with the other dimens
         "leaves uniform; numpy scalar leaves (float64 / int64 for every kind, float32 for KS); "
         "state order (ascending, adjacent swap, rotation keeping the first state, gaps, smallest step not first, descending) "
         "x route (writer: Trajectory in that order; doc: state nodes of the dumped document permuted, then fromstring) "
-        "for every kind and for cooperative pairs; mutate-after-construction histories (object built or read from a "
+        "for every kind and for cooperative pairs; file histories (MC_SolutionFile: every sequence of <= 2 (thorough 3) "
+        "write_to_file calls to one path x 5 documents of different length x overwrite on/off, each followed by "
+        "CommonRoadSolutionReader.open; plus random histories of 3..6 writes); mutate-after-construction histories (object built or read from a "
         "document, then each public attribute - planning_problem_id, cost_function, vehicle_type, trajectory, kind, "
         "scenario_id, computation_time, processor_name, date - re-assigned, alone and together, single and cooperative); all 8 metadata presence subsets, every computation-time class / date token / processor-name text class "
         "(plain, (R)/(TM), XML specials, blanks, non-ASCII, empty, 200 chars, auto, tabs/newlines) / scenario-id token; "
@@ -101,6 +103,9 @@ def model_check(ctx):
     # the reader table as shipped (no kstState entry): the design-level counterexamples documenting the finding
     ctx.mc_expect("MC_SolutionCodec", "DEV_SolutionCodec_1.cfg", "LawReaderTotal")
     ctx.mc_expect("MC_SolutionCodec", "DEV_SolutionCodec_2.cfg", "LawReadBack")
+    # file histories: path -> content; without truncation a shorter document over a longer one keeps the old tail
+    ctx.mc("MC_SolutionFile", "MC_SolutionFile3.cfg" if ctx.thorough else "MC_SolutionFile.cfg", coverage=True)
+    ctx.mc_expect("MC_SolutionFile", "DEV_SolutionFile_1.cfg", "LawFileExact")
 
 
 def _random_case(rng):
@@ -164,7 +169,14 @@ def cases(ctx):
         if ctx.rng.random() < 0.2:
             _random_history(ctx.rng, c)
         cs.append(c)
-    ctx.extra["either_band_cases"] = {"processor_name(auto|ws)": sum(1 for c in cs if c["proc"] in _PROC_EITHER),
+    fcs = ctx.gen("MC_SolutionFile", "GEN_SolutionFile3.cfg" if ctx.thorough else "GEN_SolutionFile.cfg")
+    for c in fcs:
+        c["src"] = "tlc"
+    for _ in range(300 if ctx.thorough else 40):          # longer random file histories
+        fcs.append({"fhist": [{"doc": ctx.rng.choice(sorted(_FDOCS)), "ow": ctx.rng.choice([0, 1, 1])}
+                              for _ in range(ctx.rng.randint(3, 6))], "src": "random"})
+    cs += fcs
+    ctx.extra["either_band_cases"] = {"processor_name(auto|ws)": sum(1 for c in cs if c.get("proc") in _PROC_EITHER),
                                       "of": len(cs)}
     return cs
 
@@ -371,8 +383,73 @@ def _sigs0(sol):
     return ("roundtrip/cooperative" if ordered else "roundtrip/cooperative-unordered") + kst, "schema/cooperative" + kst
 
 
+# ---- file histories (SolutionFile.tla) ---------------------------------------------------------------------------
+def _fdoc(states=1, pps=1, proc="plain", ppid=7):
+    return {"pps": [{"kind": "KS", "model": "KS", "vtype": 2, "cost": "JB1", "ppid": ppid + 10 * i,
+                     "steps": list(range(states)), "vals": [["ord"] * 5] * states} for i in range(pps)],
+            "ct": "ord", "date": "plain", "proc": proc, "scen": "T", "route": "writer"}
+
+
+# document tokens of MC_SolutionFile!FDocs: same length as base / more states / more planning problems / longer name
+_FDOCS = {"base": _fdoc(), "same": _fdoc(ppid=8), "states": _fdoc(states=3), "pps": _fdoc(pps=2),
+          "proc": _fdoc(proc="long")}
+
+
+def _execute_file(case):
+    import shutil
+    import hashlib
+    from crv.tlc import OUT
+    from commonroad.common.solution import CommonRoadSolutionReader, CommonRoadSolutionWriter
+    d = os.path.join(OUT, "c14_tmp", "%d_%s" % (os.getpid(), hashlib.sha1(json.dumps(case["fhist"]).encode()).hexdigest()[:10]))
+    shutil.rmtree(d, ignore_errors=True)
+    os.makedirs(d)
+    path = os.path.join(d, "solution.xml")
+    writers = {t: CommonRoadSolutionWriter(_build(s)[0]) for t, s in _FDOCS.items()}
+    texts = {t: w.dump() for t, w in writers.items()}
+    blobs = {t: x.encode("utf-8") for t, x in texts.items()}
+
+    def observe():
+        if not os.path.exists(path):
+            return {"doc": "None", "len": 0}
+        with open(path, "rb") as f:
+            b = f.read()
+        return {"doc": next((t for t in sorted(blobs) if blobs[t] == b), "other"), "len": len(b)}
+
+    ev = []
+    try:
+        for w in case["fhist"]:
+            pre = observe()
+            if pre["doc"] == "None":
+                kind = "create"
+            elif not w["ow"]:
+                kind = "exists-no-overwrite"
+            else:
+                n0, n1 = pre["len"], len(blobs[w["doc"]])
+                kind = "overwrite/" + ("longer-by-shorter" if n1 < n0 else "shorter-by-longer" if n1 > n0 else "equal-length")
+            try:
+                writers[w["doc"]].write_to_file(d, "solution.xml", overwrite=bool(w["ow"]))
+                res = "ok"
+            except Exception as ex:
+                res = _exc(ex)
+            post = observe()
+            ev.append({"op": "fwrite", "sig": "file/" + kind, "pre": pre, "doc": w["doc"], "len": len(blobs[w["doc"]]),
+                       "ow": int(w["ow"]), "res": res, "post": post})
+            try:
+                back = CommonRoadSolutionReader.open(path)
+                again = CommonRoadSolutionWriter(back).dump()
+                got = next((t for t in sorted(texts) if texts[t] == again), "other")
+            except Exception as ex:
+                got = _exc(ex)
+            ev.append({"op": "fread", "sig": "file/read-after-" + kind, "pre": post, "res": got})
+    finally:
+        shutil.rmtree(d, ignore_errors=True)
+    return {"ev": ev}
+
+
 def execute(case):
     use_repo()
+    if "fhist" in case:
+        return _execute_file(case)
     sol = {k: case[k] for k in ("pps", "ct", "date", "proc", "scen")}
     sol["route"] = case.get("route", "writer")
     origin = case.get("origin", "none")
@@ -466,7 +543,11 @@ def corrupt(trace, rng):
     """Corrupt ONE logged read-back item of an accepted trace; the trace spec must reject exactly that event."""
     cands = [i for i, e in enumerate(trace["ev"]) if e["op"] == "back"]
     if not cands:
-        return None
+        fw = [e for e in trace["ev"] if e["op"] == "fwrite"]
+        if not fw:
+            return None
+        fw[-1]["post"]["len"] += 1              # a stale byte behind the document
+        return trace
     i = rng.choice(cands)
     e = trace["ev"][i]
     w = e["what"]
